@@ -157,6 +157,14 @@ def queries(tier):
         bA = ('build', 't', H2, [('with_namespace', ('hole', 'n', 1))])
         bB = ('build', 't', H1, [('with_namespace', ('hole', 'n', 2))])
         qs.append(Query('%s pair built name/namespace boundary' % T, h_pair, {'T': T, 'A': bA, 'B': bB}, bound='name ⟦2⟧ + namespace ⟦1⟧ against name ⟦1⟧ + namespace ⟦2⟧'))
+    # values only a builder can produce: a field differing in a leading / trailing separator or an empty segment
+    for T in ('String', 'Purl'):
+        ty = 't' if T == 'String' else 'golang'
+        for meth in ('with_subpath', 'with_namespace', 'with_version'):
+            for na, nb in ((2, 1), (2, 2), (3, 2)):
+                bA = ('build', ty, 'n', [(meth, ('hole', 'h', na))])
+                bB = ('build', ty, 'n', [(meth, ('hole', 'h', nb))])
+                qs.append(Query('%s pair built %s ⟦%d⟧ | ⟦%d⟧' % (T, meth, na, nb), h_pair, {'T': T, 'A': bA, 'B': bB}, bound='two builder-made PURLs whose %s are free strings of %d and %d bytes' % (meth[5:], na, nb)))
     if True:
         X = P('pkg:t/', H1, '@', ('hole', 'v', 1))
         qs.append(Query('String triple name⟦1⟧@ver⟦1⟧', h_triple, {'T': 'String', 'A': X, 'B': X, 'C': X}, bound='three PURLs with free one-byte name and version'))
